@@ -546,7 +546,7 @@ func (s *searchState) record(g genLayer, res layerRes) {
 				class = deflateBombFinding
 			}
 		}
-		r.Fail(class, fmt.Sprintf("%s scanner=%s recipe=%s layer=%s msg=%s", kind, scanner, strings.ReplaceAll(g.recipe, " ", "_"), s.layerText(g.blob), c.msg))
+		s.h.fail(class, fmt.Sprintf("%s scanner=%s recipe=%s layer=%s msg=%s", kind, scanner, strings.ReplaceAll(g.recipe, " ", "_"), s.layerText(g.blob), c.msg))
 	}
 	one := func(name string, c callRes) {
 		out := c.status
@@ -713,7 +713,7 @@ func (h *harness) searchStream() {
 	p, err := newPool()
 	if err != nil {
 		h.r.Notes["search_error"] = err.Error()
-		h.r.Fail("", "search-half-could-not-start "+oneLine(err.Error(), 300))
+		h.fail("", "search-half-could-not-start "+oneLine(err.Error(), 300))
 		return
 	}
 	defer p.close()
@@ -730,7 +730,7 @@ func (h *harness) searchStream() {
 	s.runJobs(jobs, h.rnd.Fork())
 	if err := p.failed(); err != nil {
 		h.r.Notes["search_error"] = err.Error()
-		h.r.Fail("", "search-half-worker-could-not-be-started "+oneLine(err.Error(), 300))
+		h.fail("", "search-half-worker-could-not-be-started "+oneLine(err.Error(), 300))
 	}
 
 	// The observed maxima, rounded up to powers of two (the byte counts of the
